@@ -13,7 +13,8 @@ from pyvc import sym
 from pyvc.sym import And, Or, Not, Implies, ite
 from pyvc.vc import oset
 from pyvc.world import AbsSet
-from contracts.api_common import api_world, policy_is, encode_payload, notified, notifications, API, SOCK
+from contracts.api_common import (api_world, policy_is, encode_payload, notified, notifications, notified_only,
+                                  no_notification, subscriber_set, API, SOCK)
 
 GEN = {
     4: dict(api="pyairtouch.at4.api", zone="At4Zone", status_mod="pyairtouch.at4.comms.x2B_group_status",
@@ -53,8 +54,8 @@ def zone_record(h, g, p, number=None):
 def make_zone(h, g, rec):
     G = GEN[g]
     w, sock = api_world(h)
-    subs = AbsSet(w, "zone_subscribers")
-    attrs = {"_name": "Living", G["rec_attr"]: rec, "_socket": sock, "_subscribers": subs}
+    subs_obj, subs = subscriber_set(h, w, "zone_subscribers")
+    attrs = {"_name": "Living", G["rec_attr"]: rec, "_socket": sock, "_subscribers": subs_obj}
     if g == 5:
         api_states = h.get(API + ":ZonePowerState")
         attrs["_supported_power_states"] = [h.member(api_states, n) for n in ("OFF", "ON", "TURBO")]
@@ -67,8 +68,6 @@ def _fn(g, name):
 
 
 def _getters(h, g):
-    if not h.symbolic:
-        return
     G = GEN[g]
     M = G["status_mod"]
     rec = zone_record(h, g, "r_")
@@ -113,8 +112,6 @@ def _getters(h, g):
 
 
 def _update(h, g):
-    if not h.symbolic:
-        return
     G = GEN[g]
     old = zone_record(h, g, "old_")
     new = zone_record(h, g, "new_")
@@ -123,17 +120,17 @@ def _update(h, g):
     same_id = h.branch(h.eq(h.attr(new, G["number"]), h.attr(old, G["number"])))
     if not same_id:
         h.oblige("a record for another zone is refused with ValueError", r.raised("ValueError"))
-        h.oblige("...and nothing is stored or notified", And(h.attr(zone, G["rec_attr"]) is old, len(notifications(w)) == 0))
+        h.oblige("...and nothing is stored or notified", And(h.attr(zone, G["rec_attr"]) is old, no_notification(h, w)))
         return
     h.oblige("update never raises (subscriber exceptions are isolated)", r.ok)
     h.oblige("the latest record is stored", h.attr(zone, G["rec_attr"]) is new)
     changed = h.branch(Not(h.eq(old, new)))
     if changed:
         h.oblige("a changed record notifies every zone subscriber once with the zone id",
-                 And(len(notifications(w)) == 1, notified(h, w, subs, [h.attr(new, G["number"])])))
+                 notified_only(h, w, subs, [h.attr(new, G["number"])]))
         h.cover("changed")
     else:
-        h.oblige("an identical record notifies nobody", len(notifications(w)) == 0)
+        h.oblige("an identical record notifies nobody", no_notification(h, w))
         h.cover("unchanged")
 
 
@@ -175,8 +172,6 @@ def _zone_payload(h, g, out):
 
 
 def _set_power(h, g):
-    if not h.symbolic:
-        return
     G = GEN[g]
     rec = zone_record(h, g, "r_")
     w, sock, subs, zone = make_zone(h, g, rec)
@@ -211,8 +206,6 @@ def _set_power(h, g):
 
 
 def _set_damper(h, g):
-    if not h.symbolic:
-        return
     G = GEN[g]
     rec = zone_record(h, g, "r_")
     w, sock, subs, zone = make_zone(h, g, rec)
@@ -245,8 +238,6 @@ def _set_damper(h, g):
 
 
 def _set_target(h, g):
-    if not h.symbolic:
-        return
     G = GEN[g]
     rec = zone_record(h, g, "r_")
     w, sock, subs, zone = make_zone(h, g, rec)
